@@ -1,6 +1,7 @@
 import PycsepVerif.Soft64
 import PycsepVerif.RealOps
 import PycsepVerif.Model.Time
+import PycsepVerif.Model.TimeExt
 /-
   PyPrelude — the meaning of every numpy / stdlib operation the source translator (harness/py2lean.py) accepts,
   at each type it accepts it. PART OF THE TRUSTED BASE: `GeneratedSrc.lean` is a composition of these operations in
@@ -81,6 +82,18 @@ def np_min : List Rat → Rat
   | [] => 0
   | a :: l => l.foldl (fun m b => if b < m then b else m) a
 
+/-! ## exact layer: float64 arrays whose arithmetic is read without rounding (TARGETS type `q`; a 2-D array is the list of
+    its rows). The order of a sum is irrelevant there. -/
+/-- `numpy.sum(a)` of a flat array -/
+def qsum (l : List Rat) : Rat := l.sum
+/-- element-wise sum of two rows -/
+def addRows : List Rat → List Rat → List Rat
+  | a :: l, b :: r => (a + b) :: addRows l r
+  | _, _ => []
+/-- `numpy.sum(a, axis=0)` of a 2-D array with at least one row: the column sums (for an array of shape (0, M), where numpy
+    gives M zeros, the list of rows does not know M: the value is `[]`) -/
+def qsumAxis0 (rows : List (List Rat)) : List Rat := rows.foldr addRows (List.replicate (rows.headD []).length 0)
+
 /-- `numpy.any(a)` of a boolean array -/
 def np_any (a : List Bool) : Bool := a.any (fun b => b)
 
@@ -96,6 +109,13 @@ def mapUniform {β γ : Type} [Inhabited β] [Inhabited γ] (f : β → Except E
 /-- `a[mask]` for a boolean array `mask` of the size of `a`: the elements at the True positions, in order -/
 def compress {β : Type} (mask : List Bool) (a : List β) : List β :=
   (List.zip mask a).filterMap (fun p => if p.1 then some p.2 else none)
+
+/-- `numpy.sort(numpy.unique(x, return_index=True[, axis=0])[1])`: numpy.unique returns, for every distinct value (row), the index
+    of its FIRST occurrence; sorted ascending these are the positions where a value appears for the first time -/
+def firstIdxFrom {β : Type} [DecidableEq β] (k : Nat) (seen : List β) : List β → List Nat
+  | [] => []
+  | a :: l => if a ∈ seen then firstIdxFrom (k + 1) seen l else k :: firstIdxFrom (k + 1) (a :: seen) l
+def firstIdx {β : Type} [DecidableEq β] (x : List β) : List Nat := firstIdxFrom 0 [] x
 
 /-! ## sorted arrays -/
 
@@ -179,8 +199,49 @@ def Datetime.replaceUtc (d : Datetime) : Datetime := { d with tz := .utc }
 /-- `datetime.datetime(y, m, d, H, M, S, us)` (naive) -/
 def mkDatetime (y m d H M S us : Int) : Datetime :=
   { us := Time.ofFields { year := y, month := m, day := d, hour := H, minute := M, second := S, micro := us }, tz := .naive }
+/-- `datetime.datetime(y, m, d, H, M, S, us)` with CPython's argument check: ValueError outside year 1..9999, the calendar and
+    the clock ranges (`Time.validFields`) -/
+def mkDatetimeChecked (y m d H M S us : Int) : Except Err Datetime :=
+  if Time.validFields { year := y, month := m, day := d, hour := H, minute := M, second := S, micro := us }
+  then .ok (mkDatetime y m d H M S us) else .error .valueError
 /-- `a - b` of two aware datetimes: a timedelta (microseconds) -/
 def Datetime.sub (a b : Datetime) : Int := a.us - b.us
+/-! ## strings (a string value is the list of its characters) -/
+
+/-- `s[k]` for a literal index `k` (negative: from the end); `none` outside the string (Python: IndexError, not modelled —
+    the only use translated is a comparison with a character, which is then False) -/
+def strAt? (s : List Char) (k : Int) : Option Char :=
+  if 0 ≤ k then s[k.toNat]? else if 0 ≤ (s.length : Int) + k then s[((s.length : Int) + k).toNat]? else none
+
+/-- the text of the format strings `datetime.strptime` is modelled for: `%Y-%m-%d<sep>%H:%M:%S[.%f][%z]` -/
+def fmtText (f : Time.Format) : List Char :=
+  ['%', 'Y', '-', '%', 'm', '-', '%', 'd', f.sep, '%', 'H', ':', '%', 'M', ':', '%', 'S'] ++
+    (if f.frac then ['.', '%', 'f'] else []) ++ (if f.zone then ['%', 'z'] else [])
+
+def knownFormats : List Time.Format :=
+  [⟨' ', false, false⟩, ⟨' ', true, false⟩, ⟨' ', false, true⟩, ⟨' ', true, true⟩,
+   ⟨'T', false, false⟩, ⟨'T', true, false⟩, ⟨'T', false, true⟩, ⟨'T', true, true⟩]
+
+/-- `datetime.datetime.strptime(s, fmt).replace(tzinfo=datetime.timezone.utc)` for the formats above, with CPython's
+    strptime as modelled by `Time.strptimeFields` (canonical field widths; ValueError otherwise). A format outside the
+    list is not modelled (`Err.other`). A parsed `%z` offset is discarded by `.replace`. -/
+def strptimeUtc (s fmt : List Char) : Except Err Datetime :=
+  match knownFormats.find? (fun f => fmtText f == fmt) with
+  | none => .error .other
+  | some f => match Time.strptimeWith f s with
+    | some us => .ok { us := us, tz := .utc }
+    | none => .error .valueError
+
+/-- `x % 1` of a finite float64: exact -/
+def fmod1 (x : Rat) : Rat := x - ((x.floor : Int) : Rat)
+/-- `calendar.isleap(y)` for an integer-valued float `y` -/
+def isleapF (y : Rat) : Bool := Time.isLeap y.floor
+/-- `datetime.timedelta(seconds=t)` for a float `t`, in microseconds (CPython: Model/TimeExt.lean `timedeltaSeconds`) -/
+def timedeltaOfSecondsF (t : Rat) : Int := Time.timedeltaSeconds t
+/-- `datetime.timedelta(microseconds=t)` for a float `t`: rounded half to even -/
+def timedeltaOfMicrosecondsF (t : Rat) : Int := Soft64.roundHalfEven t
+/-- `dt + td` -/
+def Datetime.addTd (d : Datetime) (td : Int) : Datetime := { d with us := d.us + td }
 /-- normalised timedelta fields: `days`, `seconds` (0 ≤ · < 86400), `microseconds` (0 ≤ · < 10^6) -/
 def tdDays (td : Int) : Int := td / 86400000000
 def tdSeconds (td : Int) : Int := td % 86400000000 / 1000000
